@@ -282,6 +282,13 @@ func blsSummary(fr *frame, fn *ssa.Function, name string, args []value) (value, 
 		p := &cell
 		blsSet(p, pkb)
 		return p, true
+	case strings.HasPrefix(name, "(*"+blsPkg+"SecretKey).") && meth == "Deserialize":
+		buf := args[1].([]value)
+		if len(buf) != 32 {
+			return mkError(fr, "err blsSecretKeyDeserialize"), true
+		}
+		blsSet(args[0].(*value), buf)
+		return iface{}, true
 	case strings.HasPrefix(name, "(*"+blsPkg+"SecretKey).") && meth == "Serialize":
 		return append([]value{}, blsGet(args[0].(*value), 32)...), true
 	case isPK && meth == "IsEqual":
